@@ -66,6 +66,17 @@ graph `reactor.graph.raw`, the template ITS graph it was handed, the direction):
 neighbour lists, order pairs), decided by exact equality of the normalised graphs first and by the driver's `match.iso` otherwise; how MANY
 matches the pruning keeps is not compared — what the implementation kept is judged by `pruneSpecB` as in the graph stream.  A mismatch is a
 correspondence break (no failing input) unless one of G1-G5 / PruneSpec fails on the same (template, substrate, direction).
+
+Entry points, options, partial mode, wildcard templates (`forms`, `opts`, `partial`, `wild`; added from the anchor coverage of this check,
+coverage/C05.json).  `forms`: the same chemistry handed to the reactor in every documented form (substrate as SMILES / `SynGraph` /
+networkx graph with other node ids and insertion order, template as ITS graph / renumbered graph / `SynRule` in both directions / string,
+`SynReactor(...)` / `SynReactor.from_smiles`, strategy as string / upper case / `Strategy` member, canonicaliser given, `automorphism=True`)
+must return ONE result set (gate F1), also when the inputs are rewritten as well.  `opts`: `embed_threshold` / `embed_pre_filter` at values
+around the number of embeddings and hosts too small for a pattern component: the recorded searches must equal the Lean model `c06.search`
+under the same configuration, kept matches satisfy `pruneSpecB` (also for direct calls of `_prune_by_rule_automorphisms` with `max_group`
+below / at the group size), G1 / G5 per option.  `partial`: `partial=True` on substrates that lack a component of the pattern: G1-G5 and
+G5p (result set == gluing every match of a brute-force enumeration of the partial-match specification).  `wild`: templates with `[*:n]`
+atoms through the ordinary gates G1-G5.
 """
 import json
 import time
@@ -372,6 +383,18 @@ def shrink_case(pool, case, what, timeout):
     return best
 
 
+def _shutdown(pool):
+    """End of a pool's life on the normal path: the idle workers are sent the pool's sentinel and leave through their exit handlers
+    (where coverage.py writes a worker's data: `tools_cover.py` would otherwise lose, by a race with SIGTERM, whatever the workers of a
+    short-lived pool executed), then `close()` terminates whatever is left."""
+    try:
+        pool.pool.close()
+        pool.pool.join()
+    except Exception:  # noqa: BLE001 - shutting down only
+        pass
+    pool.close()
+
+
 def load_regress():
     d = ROOT / "regress" / "C05"
     out = []
@@ -398,9 +421,26 @@ def run(ctx):
         "a VF2 count (<= 300 embeddings) only decides whether a case is small enough to be evaluated",
         "history stream: the template renumbering is self-checked (same molecules; same atoms, charges, hydrogen counts and bonds when read "
         "back through the renaming); a fork of the harness process (which never imports synkit) is the library's initial state",
+        "opts stream: Driver/SubgraphSearch.lean `c06.search` (the C06 model of find_subgraph_mappings: strategy, strict_cc_count=True, threshold, "
+        "pre_filter) on the host / pattern graphs recorded at the reactor's search call; `rinv.prune_spec` on the recorded matches",
+        "partial stream: the harness's own back-tracking enumeration of the partial-match specification (`_bf_partial_spec`: unions of "
+        "label-preserving monomorphisms of a non-empty subset of the pattern's components with disjoint images; labels element, charge, "
+        "hcount >=, order; neither VF2 nor SynKit code)",
     ]
     ctx.assumptions = [
-        "substrates are SMILES strings; templates are ITS graphs built by rsmi_to_its from mapped reactions (centre or full); no wildcards, partial=False",
+        "streams other than forms / opts / partial / wild: substrates are SMILES strings; templates are ITS graphs built by rsmi_to_its from mapped "
+        "reactions (centre or full); no wildcards, partial=False, every option at its default",
+        "forms stream: 'the same input in another form' = a SynGraph / networkx graph built by smiles_to_graph as SynReactor._wrap_input does "
+        "(optionally with other node ids and insertion order), a SynRule built as SynReactor._wrap_template does for the hydrogen mode, the "
+        "template string itself (full ITS only), Strategy members / upper-case codes; calls the documentation says must fail (explicit_h with "
+        "implicit_temp, unsupported substrate type, strategy 'partial' / unknown) are only required to fail for every writing alike",
+        "opts stream: under embed_threshold the strategy relations G3 / G4 are not gated (the documented cap empties a search that exceeds it, so "
+        "the exhaustive search can be empty where the component-aware one is not); invariance (G1), pruning (G5, PruneSpec) and the model "
+        "comparison of the raw matches are; max_results is never set by SynReactor and is not varied (C06 does)",
+        "partial stream: PartialMatcher's answer is not gated against the specification match for match (counted); the RESULT SET must equal "
+        "the one obtained by gluing every specification match (G5p); specifications beyond 3000 matches are not evaluated (counted)",
+        "SynReactor._prune_by_rule_automorphisms' branch 'more than max_group automorphisms: nothing pruned' is driven by direct calls with a small "
+        "max_group: through the public API it needs a rule with more than 5040 automorphisms, whose embeddings then exceed the default cap of 5000",
         "reactor mode from the template reaction: centre hydrogens explicit -> defaults, none explicit -> implicit_temp=True, explicit_h=False (DESIGN 5a); mixed skipped",
         "embed_threshold left at its default (5000 embeddings): a search that exceeds it returns nothing for every numbering alike",
         "e2e stream: implicit path only (pattern without explicit hydrogen, no wildcard); (template, substrate) pairs with more than 300 "
@@ -430,7 +470,19 @@ def run(ctx):
         "H-X additions / eliminations / shifts; most with a left-hand symmetry the right-hand side breaks, some unbroken controls) x {forward, backward} x "
         f"{{hand-written substrates, {1 if quick else 4} generated substrate(s)}} x {{defaults, implicit_temp=True/explicit_h=False}}, full ITS (3/4) or centre, "
         f"each case as above (base call twice + every raw match glued + {str(k) if quick else f'{k}x{k}'} variants), the cases whose pattern keeps no X-H (controls) "
-        f"thinned to a third; {6 if quick else 80} histories over the same chemistries.")
+        f"thinned to a third; {6 if quick else 80} histories over the same chemistries.  "
+        f"Wildcard templates (wild): {len(WILD_TEMPLATES)} hand-written templates with [*:n] atoms x {{forward, backward}} x 1-3 hand-written substrates (every "
+        f"fourth as centre template = control) + {10 if quick else 120} rule-like chemistries of the history population with one or two context atoms "
+        f"replaced by *, each case as above.  Entry points (forms): {24 if quick else 240} chemistries drawn in turn from the families star / rule / extra / "
+        "corpus / wild / xh (hand-written explicit-H templates), substrates <= 30 atoms, each: reference call + 13 other forms (12 for centre templates) "
+        "+ 2 calls with rewritten inputs in a random form, explicit-H templates also with explicit_h=False (as written and rewritten), every third "
+        "case also 4 failing calls x 2 writings; all / comp / bt.  Options (opts): "
+        f"{24 if quick else 240} chemistries (same strata, <= 22 atoms) + {8 if quick else 80} hosts with the substrate's component count but one / every "
+        f"component a single atom; per case defaults + embed_pre_filter + {'3 of' if quick else 'all of'} {{threshold n, n-1, nc-1, 0, n+1, n with "
+        "pre_filter} (n / nc = embeddings of the exhaustive / component-aware search), each as written and rewritten; every fourth case also the "
+        "empty template (networkx graph without nodes) on the substrate as written and rewritten; direct pruning calls with "
+        f"max_group in {{0, 1, |G|-1, |G|}}.  Partial mode (partial): {16 if quick else 160} chemistries with a multi-component pattern and substrate "
+        "(<= 12 atoms), two of three with one substrate fragment left out, reference + 2 rewritten writings, partial=True.")
     ctx.nontrivial_rule = "distinct (template, direction, substrate, seeds) with >=1 reaction produced under strategy all"
     build_and_audit(ctx, ["SynKitProofs.Props.C05"], "SynKitProofs/Audit/C05.lean", THEOREMS)
 
@@ -445,7 +497,12 @@ def run(ctx):
     try:
         t = time.time()
         reg = load_regress()
-        run_cases(ctx, pool, [c for c in reg if c.get("stream") not in ("history", "e2e")], max(timeout, 30.0), "regress", shrink=False)
+        run_cases(ctx, pool, [c for c in reg if c.get("stream") not in ("history", "e2e", "forms", "opts", "partial")], max(timeout, 30.0),
+                  "regress", shrink=False)
+        for s in ("forms", "opts", "partial"):
+            creg = [c for c in reg if c.get("stream") == s]
+            if creg:
+                cov_stream(ctx, pool, creg, max(timeout, 30.0), s)
         ctx.count("regress_cases", len(reg))
         extra = extra_cases(ctx, k)
         run_cases(ctx, pool, extra, timeout, "extra")
@@ -455,6 +512,7 @@ def run(ctx):
         stamps["corpus"] = round(time.time() - t, 1); t = time.time()
         graph_stream(ctx, pool, corpus, infos, 40 if quick else 200)
         stamps["graph"] = round(time.time() - t, 1); t = time.time()
+        _shutdown(pool)
     finally:
         pool.close()
     fpool = FreshPool()
@@ -482,12 +540,15 @@ def run(ctx):
         stamps["e2e"] = round(time.time() - t, 1); t = time.time()
         # explicit re-match population (after everything else: its draws change no other stream)
         xh_hists = xh_stream(ctx, pool, k, 1 if quick else 4, 6 if quick else 80, timeout, full=not quick)
+        _shutdown(pool)
     finally:
         pool.close()
     xh_history_stream(ctx, xh_hists, timeout)
     stamps["xh"] = round(time.time() - t, 1)
     ctx.obligation("correspondence: result sets invariant under template renumbering / substrate rewriting / repetition, also inside "
                    "one interpreter after other calls (histories); comp within all; bt = comp or all; pruning invisible", gates_ok)
+    # entry points / options / partial mode / wildcard templates (after everything else: their draws change no other stream)
+    cov_streams(ctx, chems, timeout)
 
 
 # ----------------------------------------------------------------------------- graph-level stream
@@ -1764,6 +1825,788 @@ def xh_history_stream(ctx, hists, timeout):
                    "all; bt = comp or all; pruning invisible", len(ctx.violations) == ctx.xh_before)
 
 
+# ============================================================================= entry points, options, partial mode, wildcard templates
+# Anchor coverage (coverage/C05.json): the streams above call the reactor in ONE form — SMILES substrate (graph stream: a plain
+# networkx graph), ITS-graph template (histories: also string / forward SynRule), `SynReactor(...)`, lower-case strategy strings,
+# every option at its default.  What `SynReactor` documents besides is driven here, each with the gates of the property:
+#
+#   forms    the same chemistry handed over in other documented forms — substrate as `SynGraph` / networkx graph (also with other
+#            node ids and another insertion order), `SynReactor.from_smiles`, template as `SynRule` (also backwards: the reactor then
+#            inverts the graph the rule was built from), as a renumbered graph, as a string, strategy as `Strategy` member / in
+#            upper case, an explicit canonicaliser, `automorphism=True`; two more calls write the inputs another way (template
+#            renumbered, substrate SMILES rewritten) AND hand them over in another form.  Gate F1: every form returns the result
+#            set of the reference form (plus G3-G5 per call).  Explicit-H templates are also applied with `explicit_h=False` alone (the
+#            third combination of the hydrogen flags; a configuration of its own: as written and rewritten, one result set).  Calls
+#            that must fail (contradictory hydrogen flags, a substrate of an
+#            unsupported type, strategy "partial" / unknown) are run for two writings: only 'raises for one writing, answers for
+#            another' is gated.
+#   opts     `embed_threshold` and `embed_pre_filter`: thresholds at and just below the number of embeddings (of the exhaustive and
+#            of the component-aware search), 0; the pre-filter alone and with a threshold; hosts with as many components as the
+#            pattern of which one / all are too small for a pattern component.  Expected raw match sets come from the Lean model
+#            (`c06.search` on the graphs the reactor really searched: strategy, strict, threshold, pre_filter as coded); what the
+#            pruning kept is judged by `pruneSpecB`; G1 (the same option on another writing of the inputs), G5.  G3/G4 only where
+#            no threshold is set (a cap can empty the exhaustive search and leave the component-aware one: the documented guard).
+#            Every fourth case also applies the EMPTY template (a graph without nodes: one empty match, the substrate comes back
+#            unchanged; the component-aware search has a branch of its own for a pattern without components).
+#            `SynReactor._prune_by_rule_automorphisms` is also called directly with `max_group` below / at the size of the rule's
+#            automorphism group (through the public API that branch needs a rule with more than 5040 automorphisms, whose matches
+#            exceed the default embedding cap): kept matches judged by `pruneSpecB`.
+#   partial  `partial=True` (`PartialMatcher`: any non-empty subset of the pattern's components, placed disjointly; wildcard
+#            atoms stand for the rest): substrates that hold all / only some components of a multi-component pattern.  G1, G2-like
+#            re-read, G3/G4, G5 on the matcher's own matches, and G5p: gluing every match of an independent brute-force
+#            enumeration of the specification (own back-tracking over labels `element`, `charge`, `hcount >=`, `order`; no VF2)
+#            through the reactor's internals gives the same result set.
+#   wild     templates with wildcard atoms (`[*:n]`: removed from the pattern before the search, put back as wildcard nodes while
+#            gluing, dropped again when the reaction is written): hand-written ones and rule-like templates of the history
+#            population with one or two context atoms replaced by `*`; ordinary cases (gates G1-G5 through `run_cases`).
+
+COV_FORMS = (
+    # label, substrate form, template form, constructor, strategy form, extra
+    ("sub:SynGraph", "syngraph", "its", "init", "str", {}),
+    ("sub:nx.Graph(other ids, other order)", "nx-relabelled", "its", "init", "str", {}),
+    ("sub:SynGraph(other ids, other order)", "syngraph-relabelled", "its", "init", "str", {}),
+    ("ctor:from_smiles", "str", "its", "from_smiles", "str", {}),
+    ("tpl:SynRule", "str", "synrule", "init", "str", {}),
+    ("tpl:graph(other ids, other order)", "str", "its-relabelled", "init", "str", {}),
+    ("tpl:SynRule(other ids)+sub:SynGraph(other ids)", "syngraph-relabelled", "synrule-relabelled", "init", "str", {}),
+    ("tpl:str", "str", "str", "init", "str", {}),
+    ("strategy:enum", "str", "its", "init", "enum", {}),
+    ("strategy:upper", "str", "its", "init", "upper", {}),
+    ("canonicaliser:given", "str", "its", "init", "str", {"canonicaliser": True}),
+    ("automorphism:True", "str", "its", "init", "str", {"kw": {"automorphism": True}}),
+    ("ctor:from_smiles+enum+SynRule", "str", "synrule", "from_smiles", "enum", {}),
+)
+COV_ERRORS = (
+    ("error:explicit_h with implicit_temp", {"kw": {"implicit_temp": True, "explicit_h": True}}),
+    ("error:substrate of unsupported type", {"sub_form": "bad-type"}),
+    ("error:strategy partial", {"strategy": "partial"}),
+    ("error:unknown strategy", {"strategy": "exhaustive"}),
+)
+COV_STRATEGY_MEMBER = {"all": "ALL", "comp": "COMPONENT", "bt": "BACKTRACK"}
+COV_SPEC_CAP = 3000     # brute-force partial specification: not evaluated beyond this many matches
+
+
+def _cov_substrate(form, smiles, seed):
+    if form == "str":
+        return smiles
+    if form == "bad-type":
+        return 12345
+    from synkit.Graph.canon_graph import GraphCanonicaliser
+    from synkit.Graph.syn_graph import SynGraph
+    from synkit.IO.chem_converter import smiles_to_graph
+
+    g = smiles_to_graph(smiles, use_index_as_atom_map=False, drop_non_aam=False)   # what SynReactor._wrap_input builds from a string
+    if g is None:
+        raise ValueError("substrate SMILES does not parse")
+    if "relabelled" in form:
+        g = C._relabelled_copy(g, C._random_injection(g.nodes(), seed), seed + 1)
+    return SynGraph(g, GraphCanonicaliser()) if form.startswith("syngraph") else g
+
+
+def _cov_template(form, rsmi, core, mode, seed):
+    if form == "str":
+        return rsmi
+    if form == "empty":
+        import networkx as nx
+
+        return nx.Graph()   # the empty rule: one (empty) match, the substrate is returned unchanged
+    from synkit.Graph.canon_graph import GraphCanonicaliser
+    from synkit.IO.chem_converter import rsmi_to_its
+    from synkit.Rule import SynRule
+
+    tpl = rsmi_to_its(rsmi, core=core)
+    if "relabelled" in form:
+        tpl = C._relabelled_copy(tpl, C._random_injection(tpl.nodes(), seed + 7), seed + 8)
+    if form.startswith("synrule"):
+        # the SynRule the reactor would build itself from the graph (SynReactor._wrap_template, forward)
+        tpl = (SynRule(tpl, canonicaliser=GraphCanonicaliser(), implicit_h=False) if mode != "explicit"
+               else SynRule(tpl, canonicaliser=GraphCanonicaliser()))
+    return tpl
+
+
+def _bf_partial_spec(host, pattern, cap=COV_SPEC_CAP):
+    """The specification of the partial matcher's answer, enumerated by plain back-tracking (no VF2, no SynKit): every union of
+    label-preserving monomorphisms (node: `element`, `charge` equal, `hcount` of the host >= that of the pattern; edge: `order`
+    equal; further host edges allowed) of a NON-EMPTY subset of the pattern's connected components into the host with pairwise
+    disjoint images.  -> list of dicts pattern node -> host node, or None beyond `cap`."""
+    import itertools
+    import networkx as nx
+
+    def node_ok(p, h):
+        a, b = pattern.nodes[p], host.nodes[h]
+        return a.get("element") == b.get("element") and a.get("charge") == b.get("charge") and b.get("hcount", 0) >= a.get("hcount", 0)
+
+    per_comp = []
+    for comp in nx.connected_components(pattern):
+        start = min(comp, key=repr)
+        order = list(nx.bfs_tree(pattern.subgraph(comp), start))   # every node after the first has an earlier neighbour
+        found = []
+
+        def extend(i, m, used):
+            if len(found) > cap:
+                return
+            if i == len(order):
+                found.append(dict(m))
+                return
+            p = order[i]
+            for h in host.nodes:
+                if h in used or not node_ok(p, h):
+                    continue
+                if all(host.has_edge(h, m[q]) and host[h][m[q]].get("order") == pattern[p][q].get("order") for q in pattern[p] if q in m):
+                    m[p] = h
+                    used.add(h)
+                    extend(i + 1, m, used)
+                    used.discard(h)
+                    del m[p]
+
+        extend(0, {}, set())
+        if len(found) > cap:
+            return None
+        per_comp.append(found)
+    out = []
+    for k in range(len(per_comp), 0, -1):
+        for combo in itertools.combinations(range(len(per_comp)), k):
+            def place(j, acc, used):
+                if len(out) > cap:
+                    return
+                if j == len(combo):
+                    out.append(dict(acc))
+                    return
+                for emb in per_comp[combo[j]]:
+                    img = set(emb.values())
+                    if img & used:
+                        continue
+                    place(j + 1, {**acc, **emb}, used | img)
+            place(0, {}, set())
+            if len(out) > cap:
+                return None
+    return out
+
+
+def _cov_fit_all(std, smarts):
+    res = set()
+    for s in smarts:
+        try:
+            f = std.fit(s)
+        except Exception:  # noqa: BLE001 - an output the normal form cannot read is not a distinct reaction
+            f = None
+        if f is not None:
+            res.add(f)
+    return sorted(res)
+
+
+def _cov_run(sr, std, task, call, strategy):
+    """One SynReactor run of a call: the call's form of substrate / template / strategy / constructor and its options."""
+    import networkx as nx
+    from synkit.Graph.canon_graph import GraphCanonicaliser
+    from synkit.Synthesis.Reactor.strategy import Strategy
+
+    searches, partials = [], []
+    orig, orig_pm = sr.SubgraphSearchEngine, sr.PartialMatcher
+
+    class Recorder(orig):  # records what the search returned before pruning
+        @staticmethod
+        def find_subgraph_mappings(*a, **k):
+            r = orig.find_subgraph_mappings(*a, **k)
+            searches.append((r, k.get("host", a[0] if a else None), k.get("pattern", a[1] if len(a) > 1 else None)))
+            return r
+
+    class PartialRecorder(orig_pm):  # partial mode: the matcher's own answer
+        def get_mappings(self):
+            r = orig_pm.get_mappings(self)
+            partials.append((r, self.hosts[0], self.pattern))
+            return r
+
+    seed = call.get("seed", 1)
+    mode = task["mode"]
+    sub = _cov_substrate(call.get("sub_form", "str"), call["substrate"], seed)
+    tpl = _cov_template(call.get("tpl_form", "its"), call["template"], task["core"], mode, seed)
+    kw = dict(C._mode_kwargs(mode))
+    kw.update(call.get("kw") or {})
+    if call.get("canonicaliser"):
+        kw["canonicaliser"] = GraphCanonicaliser()
+    sform = call.get("strat_form", "str")
+    strat = call.get("strategy") or strategy
+    strat = getattr(Strategy, COV_STRATEGY_MEMBER[strat]) if sform == "enum" else strat.upper() if sform == "upper" else strat
+    if call.get("ctor") == "from_smiles":
+        reactor = sr.SynReactor.from_smiles(sub, tpl, invert=task["invert"], strategy=strat, **kw)
+    else:
+        reactor = sr.SynReactor(sub, tpl, invert=task["invert"], strategy=strat, **kw)
+    sr.SubgraphSearchEngine, sr.PartialMatcher = Recorder, PartialRecorder
+    try:
+        kept = reactor.mappings
+    finally:
+        sr.SubgraphSearchEngine, sr.PartialMatcher = orig, orig_pm
+    partial = bool(kw.get("partial"))
+    rec = partials if partial else searches
+    raw, h, p = (rec[0] if rec else (None, None, None))
+    raw = None if raw is None else [dict(m) for m in raw]
+    first = _cov_fit_all(std, list(reactor.smarts_list))
+    out = {"results": first, "n_map": len(kept), "n_raw": None if raw is None else len(raw),
+           "reread_equal": _cov_fit_all(std, list(reactor.smarts_list)) == first}
+    small = raw is not None and h is not None and p is not None and h.number_of_nodes() <= 60 and p.number_of_nodes() <= 45 and len(raw) <= 400
+    ints = small and all(isinstance(n, int) for n in h.nodes) and all(isinstance(n, int) for n in p.nodes)
+    if call.get("want_graphs") and ints and not partial:
+        out["host"], out["pattern"] = C._enc_graph(h), C._enc_graph(p)
+        out["raw"] = sorted(sorted([int(a), int(b)] for a, b in m.items()) for m in raw)
+        # inputs of the PruneSpec gate (as reactor_inv_common._graph_run): the rule's automorphisms enumerated afresh
+        rcg = reactor.rule.rc.raw
+        keep = list(p.nodes())
+        keepset = set(keep)
+        gm = nx.algorithms.isomorphism.GraphMatcher(
+            rcg, rcg, node_match=lambda a, b: a.get("typesGH") == b.get("typesGH"), edge_match=lambda a, b: a.get("order") == b.get("order"))
+        group = []
+        for sigma in gm.isomorphisms_iter():
+            group.append(sorted([int(x), int(y)] for x, y in sigma.items() if x in keepset))
+            if len(group) > 60:
+                group = None
+                break
+        if group is not None and len(raw) <= 200:
+            enc = lambda ms: [sorted([int(a), int(b)] for a, b in m.items()) for m in ms]   # noqa: E731
+            out["prune"] = {"keep": [int(x) for x in keep], "group": group, "raw_ordered": enc(raw), "kept_ordered": enc(kept)}
+            if call.get("prune_units") and len(raw) >= 2 and hasattr(sr.SynReactor, "_prune_by_rule_automorphisms"):
+                units = []
+                for g in sorted({0, 1, max(len(group) - 1, 0), len(group)}):
+                    ku = sr.SynReactor._prune_by_rule_automorphisms([dict(m) for m in raw], rcg, list(keep), max_group=g)
+                    units.append({"max_group": g, "kept_ordered": enc(ku)})
+                out["prune"]["units"] = units
+    if raw is not None and call.get("want_raw", True):
+        # glue EVERY raw match through the reactor's own internals (no pruning)
+        reactor._mappings = [dict(m) for m in raw]
+        reactor._its = None
+        reactor._smarts = None
+        out["results_raw"] = _cov_fit_all(std, reactor.smarts_list)
+    if partial and raw is not None and small:
+        spec = _bf_partial_spec(h, p)
+        if spec is None:
+            out["spec"] = "too large"
+        else:
+            key = lambda m: json.dumps(sorted([repr(a), repr(b)] for a, b in m.items()))   # noqa: E731
+            out["spec"] = {"n": len(spec), "equal": sorted(map(key, spec)) == sorted(map(key, raw)),
+                           "n_full": sum(1 for m in spec if len(m) == p.number_of_nodes()),
+                           "pattern_components": nx.number_connected_components(p)}
+            reactor._mappings = spec
+            reactor._its = None
+            reactor._smarts = None
+            out["results_spec"] = _cov_fit_all(std, reactor.smarts_list)
+    return out
+
+
+def _cov_resolve(v, ref):
+    """Symbolic option values -> numbers, from the reference call of the case: 'n' / 'n-1' (embeddings found by the exhaustive
+    search), 'nc-1' (by the component-aware search)."""
+    if not isinstance(v, str):
+        return v
+    n = (ref or {}).get("all", {}).get("n_raw") or 0
+    nc = (ref or {}).get("comp", {}).get("n_raw") or 0
+    return {"n": n, "n-1": max(n - 1, 0), "nc-1": max(nc - 1, 0), "n+1": n + 1}[v]
+
+
+def cov_task(task):
+    """Worker entry.  task: {key, template, core, invert, mode, substrate, timeout, calls: [call...]}; the first call is the reference
+    (string substrate, ITS graph, defaults).  call: {label, group, template, substrate, sub_form, tpl_form, strat_form, ctor, kw,
+    canonicaliser, strategy, seed, want_graphs, prune_units, expect_error}.  Every call is run for all three strategies (one run
+    when it names its own `strategy`); an exception is the call's outcome."""
+    t0 = time.time()
+    out = {"key": task["key"], "status": "ok", "calls": []}
+    import synkit.Synthesis.Reactor.syn_reactor as sr
+    from synkit.Chem.Reaction.standardize import Standardize
+
+    std = Standardize()
+    ref = None
+    for call in task["calls"]:
+        C._ALARM["fired"] = False
+        res = {"status": "ok", "runs": {}}
+        kw = {k: _cov_resolve(v, ref) for k, v in (call.get("kw") or {}).items()}
+        call = dict(call, kw=kw)
+        res["kw"] = kw
+        try:
+            C.signal.setitimer(C.signal.ITIMER_REAL, float(task.get("timeout", 30)))
+            for strat in ([call["strategy"]] if call.get("strategy") else C.STRATEGIES):
+                res["runs"][strat] = _cov_run(sr, std, task, call, strat)
+        except C.CaseTimeout:
+            res["status"] = "timeout"
+        except Exception as e:  # noqa: BLE001 - an exception of the implementation is a result, not a crash
+            res["status"] = "error:" + type(e).__name__
+            res["error"] = str(e)[:300]
+        finally:
+            C.signal.setitimer(C.signal.ITIMER_REAL, 0)
+        if C._ALARM["fired"]:
+            res["status"] = "timeout"
+        if ref is None and res["status"] == "ok":
+            ref = res["runs"]
+        out["calls"].append(res)
+        if res["status"] == "timeout":
+            out["status"] = "timeout"
+            break  # what follows would run in a state the time-out left behind
+    out["wall"] = round(time.time() - t0, 3)
+    return out
+
+
+# ----------------------------------------------------------------------------- populations of the cov streams
+WILD_TEMPLATES = [
+    # name, template, substrates forward, substrates backward
+    ("ester_hydrolysis_R", "[*:1][C:2](=[O:3])[O:4][C:5].[OH2:6]>>[*:1][C:2](=[O:3])[OH:6].[C:5][OH:4]",
+     ["CC(=O)OC.O", "CCOC(=O)CC(=O)OC.O", "COC(=O)c1ccccc1.O"], ["CC(=O)O.CO", "OC(=O)CC(=O)O.CO"]),
+    ("ether_cleavage_R", "[C:1][O:2][*:3].[OH2:4]>>[C:1][OH:4].[OH:2][*:3]", ["CCOC.O", "COC(C)=O.O", "COCCOC.O"], ["CCO.CO", "OCCO.CO"]),
+    ("amide_R_R", "[*:1][C:2](=[O:3])[Cl:4].[*:5][NH2:6]>>[*:1][C:2](=[O:3])[NH:6][*:5].[ClH:4]",
+     ["CC(=O)Cl.CN", "ClC(=O)CC(=O)Cl.NCCN"], ["CC(=O)NC.Cl", "CNC(=O)CC(=O)NC.Cl"]),
+    ("sn2_R", "[*:1][CH2:2][Br:3].[OH-:4]>>[*:1][CH2:2][OH:4].[Br-:3]", ["CCBr.[OH-]", "BrCCCBr.[OH-]"], ["CCO.[Br-]", "OCCCO.[Br-]"]),
+    ("ketone_hydrogenation_R_R", "[*:1][C:2](=[O:3])[*:4].[H:5][H:6]>>[*:1][C:2]([H:5])([O:3][H:6])[*:4]", ["CC(=O)CC.[H][H]"], ["CC(O)CC"]),
+    ("silyl_chloride_R3", "[*:1][Si:2]([*:3])([*:4])[Cl:5].[OH2:6]>>[*:1][Si:2]([*:3])([*:4])[OH:6].[ClH:5]",
+     ["C[Si](C)(CC)Cl.O"], ["C[Si](C)(CC)O.Cl"]),
+    ("aldol_R", "[*:1][C:2](=[O:3])[CH:4].[C:5]=[O:6]>>[*:1][C:2](=[O:3])[C:4][C:5][OH:6]", ["CCC(=O)CC.C=O", "CC(=O)C.CC=O"], ["CC(=O)CC(C)O"]),
+    ("diol_monoacylation_R", "[OH:1][C:2][C:3][OH:4].[*:8][C:5](=[O:6])[Cl:7]>>[OH:1][C:2][C:3][O:4][C:5](=[O:6])[*:8].[ClH:7]",
+     ["CC(O)CO.CC(=O)Cl"], ["CC(O)COC(C)=O.Cl"]),
+]
+
+
+def wildcardise(tpl, rnd):
+    """A rule-like template with one or two of its context atoms (not in the centre, written without hydrogens / charge, one
+    neighbour) replaced by the wildcard `*`, on both sides.  -> template or None"""
+    import re
+
+    labels, el, centre = label_tables(tpl)
+    rs, ps = tpl.split(">>")
+    _, rb, _, _ = C._side_table(rs)
+    _, pb, _, _ = C._side_table(ps)
+    deg = {m: max(sum(1 for e in b if m in e) for b in (rb, pb)) for m in labels}
+    cand = [m for m in labels if m not in centre and deg[m] == 1 and el[m] != "H" and re.search(r"\[%s:%d\]" % (re.escape(el[m]), m), tpl)]
+    if not cand:
+        return None
+    for m in rnd.sample(cand, min(len(cand), rnd.choice((1, 1, 2)))):
+        tpl = re.sub(r"\[%s:%d\]" % (re.escape(el[m]), m), "[*:%d]" % m, tpl)
+    info = C.analyze_reaction(tpl)
+    return tpl if info["ok"] and info["mode"] != "mixed" else None
+
+
+def wild_cases(ctx, chems, k, n_gen):
+    """Wildcard-template cases: the hand-written ones (full ITS; every second also as centre template = control without wildcard)
+    and `n_gen` rule-like chemistries of the history population (full ITS) with context atoms replaced by `*`."""
+    rnd = ctx.rnd
+    out = []
+
+    def seeds():
+        return [rnd.randrange(1, 2**30) for _ in range(k)]
+
+    for i, (name, tpl, fw, bw) in enumerate(WILD_TEMPLATES):
+        info = C.analyze_reaction(tpl)
+        if not info["ok"] or info["mode"] == "mixed":
+            ctx.count("wild:template_unusable")
+            continue
+        for invert, subs in ((False, fw), (True, bw)):
+            for j, s in enumerate(subs):
+                core = (i + j) % 4 == 3
+                out.append({"name": f"wild:{name}/{'centre' if core else 'its'}/{'bw' if invert else 'fw'}/{j}", "template": tpl, "core": core,
+                            "invert": invert, "mode": info["mode"], "substrate": s, "tseeds": seeds(), "sseeds": seeds(), "wild": "hand"})
+    pool = [c for c in chems if c["family"] in ("star", "rule") and not c["core"]]
+    rnd.shuffle(pool)
+    n = 0
+    for c in pool:
+        if n >= n_gen:
+            break
+        w = wildcardise(c["template"], rnd)
+        if w is None:
+            continue
+        n += 1
+        out.append({"name": "wild:" + c["name"], "template": w, "core": False, "invert": c["invert"], "mode": C.analyze_reaction(w)["mode"],
+                    "substrate": c["substrate"], "tseeds": seeds(), "sseeds": seeds(), "wild": "generated"})
+    return out
+
+
+def xh_hand_chems():
+    """The explicit re-match templates on their hand-written substrates (explicit hydrogen mode, full ITS), as chemistries of family 'xh'."""
+    tpls = {name: tpl for name, tpl, _ in xh_templates()}
+    out = []
+    for name in sorted(XH_HAND):
+        info = C.analyze_reaction(tpls[name])
+        if not info["ok"] or info["mode"] != "explicit":
+            continue
+        for d in sorted(XH_HAND[name]):
+            for j, s in enumerate(XH_HAND[name][d]):
+                out.append(_chem(f"xh:{name}/its/{d}/hand{j}", tpls[name], False, d == "bw", "explicit", s, "xh"))
+    return out
+
+
+def _cov_pick(ctx, chems, n, max_heavy, want=lambda c: True):
+    """`n` chemistries, by strata of the history population (star / rule / extra / corpus in turn), substrates of <= max_heavy atoms."""
+    rnd = ctx.rnd
+    by = {}
+    for c in chems:
+        if want(c):
+            by.setdefault(c["family"], []).append(c)
+    for v in by.values():
+        rnd.shuffle(v)
+    out, fams, i = [], [f for f in ("star", "rule", "extra", "corpus", "wild", "xh") if by.get(f)], 0
+    while fams and len(out) < n:
+        f = fams[i % len(fams)]
+        i += 1
+        if not by[f]:
+            fams.remove(f)
+            i = 0
+            continue
+        c = by[f].pop()
+        h = _heavy_atoms(c["substrate"])
+        if h is not None and h <= max_heavy:
+            out.append(c)
+    return out
+
+
+def _rewritten(ctx, chem):
+    """Another writing of the chemistry: template renumbered (all labels), substrate SMILES rewritten."""
+    try:
+        tpl = C.renumber_reaction(chem["template"], ctx.rnd.randrange(1, 2**30))
+    except C.RewriteFailed:
+        tpl = chem["template"]
+    return tpl, C.rewrite_smiles(chem["substrate"], ctx.rnd.randrange(1, 2**30))
+
+
+def forms_cases(ctx, chems, n):
+    rnd = ctx.rnd
+    cases = []
+    for i, c in enumerate(_cov_pick(ctx, chems, n, 30)):
+        calls = [{"label": "reference", "group": "forms", "template": c["template"], "substrate": c["substrate"], "want_raw": True}]
+        for label, sub_form, tpl_form, ctor, sform, extra in COV_FORMS:
+            if tpl_form == "str" and c["core"]:
+                continue   # a string is read as the full ITS
+            calls.append(dict({"label": label, "group": "forms", "template": c["template"], "substrate": c["substrate"], "sub_form": sub_form,
+                               "tpl_form": tpl_form, "ctor": ctor, "strat_form": sform, "seed": rnd.randrange(1, 2**30), "want_raw": False}, **extra))
+        for _ in range(2):   # another writing AND another form
+            tpl, sub = _rewritten(ctx, c)
+            label, sub_form, tpl_form, ctor, sform, extra = rnd.choice([f for f in COV_FORMS if f[2] != "str"])
+            if ctor == "from_smiles":
+                sub_form = "str"
+            calls.append(dict({"label": "rewritten+" + label, "group": "forms", "template": tpl, "substrate": sub, "sub_form": sub_form,
+                               "tpl_form": tpl_form, "ctor": ctor, "strat_form": sform, "seed": rnd.randrange(1, 2**30), "want_raw": False}, **extra))
+        if c["mode"] == "explicit":
+            # the third combination of the hydrogen flags (template with explicit hydrogens, results not re-expanded): a configuration of
+            # its own, so a group of its own — two writings, one result set
+            tpl, sub = _rewritten(ctx, c)
+            for t, s in ((c["template"], c["substrate"]), (tpl, sub)):
+                calls.append({"label": "flags:explicit_h=False", "group": "flags:explicit_h=False", "template": t, "substrate": s,
+                              "kw": {"explicit_h": False}, "want_raw": True})
+        if i % 3 == 0:
+            tpl, sub = _rewritten(ctx, c)
+            for label, extra in COV_ERRORS:
+                for t, s in ((c["template"], c["substrate"]), (tpl, sub)):
+                    calls.append(dict({"label": label, "group": label, "template": t, "substrate": s, "expect_error": True, "want_raw": False,
+                                       "strategy": extra.get("strategy", "all")}, **{k: v for k, v in extra.items() if k != "strategy"}))
+        cases.append(dict(c, stream="forms", calls=calls))
+    return cases
+
+
+COV_OPTS = (
+    ("pre_filter", {"embed_pre_filter": True}),
+    ("threshold=n", {"embed_threshold": "n"}),
+    ("threshold=n-1", {"embed_threshold": "n-1"}),
+    ("threshold=nc-1", {"embed_threshold": "nc-1"}),
+    ("threshold=0", {"embed_threshold": 0}),
+    ("threshold=n,pre_filter", {"embed_threshold": "n", "embed_pre_filter": True}),
+    ("threshold=n+1", {"embed_threshold": "n+1"}),
+)
+
+
+def undersized(chem, which):
+    """The chemistry on a host with as many components as its substrate of which the largest (`which`='one') or every one ('all')
+    is a single heavy atom: a pattern component then finds no host component of its size."""
+    frags = chem["substrate"].split(".")
+    if len(frags) < 2:
+        return None
+    tiny = ["C", "O", "N", "Cl", "S"]
+    if which == "one":
+        big = max(range(len(frags)), key=lambda i: (_heavy_atoms(frags[i]) or 0, -i))
+        frags = [("C" if i == big else f) for i, f in enumerate(frags)]
+    else:
+        frags = [tiny[i % len(tiny)] for i in range(len(frags))]
+    return dict(chem, substrate=".".join(frags), name=chem["name"] + "/undersized-" + which)
+
+
+def opts_cases(ctx, chems, n, n_small):
+    rnd = ctx.rnd
+    picked = _cov_pick(ctx, chems, n, 22)
+    multi = [c for c in chems if "." in c["substrate"]]
+    rnd.shuffle(multi)
+    small = [u for c in multi[:n_small] for u in (undersized(c, rnd.choice(("one", "all"))),) if u]
+    cases = []
+    for c in picked + small:
+        tpl, sub = _rewritten(ctx, c)
+        calls = [{"label": "reference", "group": "defaults", "template": c["template"], "substrate": c["substrate"], "want_graphs": True,
+                  "prune_units": True, "want_raw": True},
+                 {"label": "rewritten", "group": "defaults", "template": tpl, "substrate": sub, "want_raw": False}]
+        opts = list(COV_OPTS) if ctx.quick is False else [COV_OPTS[0]] + rnd.sample(COV_OPTS[1:], 3)
+        for label, kw in opts:
+            calls.append({"label": label, "group": label, "template": c["template"], "substrate": c["substrate"], "kw": dict(kw),
+                          "want_graphs": True, "want_raw": True})
+            calls.append({"label": label + "/rewritten", "group": label, "template": tpl, "substrate": sub, "kw": dict(kw), "want_raw": False})
+        if len(cases) % 4 == 0:   # the empty template (no atom at all: the component-aware search answers [{}] for a pattern without components)
+            calls.append({"label": "empty template", "group": "empty template", "template": c["template"], "substrate": c["substrate"],
+                          "tpl_form": "empty", "want_graphs": True, "want_raw": True})
+            calls.append({"label": "empty template/rewritten", "group": "empty template", "template": tpl, "substrate": sub, "tpl_form": "empty",
+                          "want_raw": False})
+        cases.append(dict(c, stream="opts", calls=calls))
+    return cases
+
+
+def partial_cases(ctx, chems, n):
+    """Multi-component patterns on substrates that hold every component / lack one of them, `partial=True`."""
+    rnd = ctx.rnd
+
+    def multi(c):
+        return "." in c["template"].split(">>")[1 if c["invert"] else 0] and "." in c["substrate"]
+
+    cases = []
+    for i, c in enumerate(_cov_pick(ctx, chems, n, 12, multi)):
+        if i % 3 != 2:   # two of three: one fragment of the substrate left out
+            frags = c["substrate"].split(".")
+            frags.pop(rnd.randrange(len(frags)))
+            c = dict(c, substrate=".".join(frags), name=c["name"] + "/fragment-left-out")
+        calls = [{"label": "reference", "group": "partial", "template": c["template"], "substrate": c["substrate"], "kw": {"partial": True}}]
+        for _ in range(2):
+            tpl, sub = _rewritten(ctx, c)
+            calls.append({"label": "rewritten", "group": "partial", "template": tpl, "substrate": sub, "kw": {"partial": True}})
+        cases.append(dict(c, stream="partial", calls=calls))
+    return cases
+
+
+# ----------------------------------------------------------------------------- judging the cov streams
+def cov_public(case, calls=None):
+    return {"stream": case["stream"], "template": case["template"], "core": case["core"], "invert": case["invert"], "mode": case["mode"],
+            "substrate": case["substrate"], "calls": case["calls"] if calls is None else calls}
+
+
+def _relations(runs, cmp, where):
+    bad = []
+    a, c, b = (set(runs[s]["results"]) for s in ("all", "comp", "bt"))
+    if not cmp.subset(c, a):
+        bad.append(("G3 component-aware results are not a subset of the exhaustive results", dict(where, extra=sorted(c - a)[:6])))
+    if c and not cmp.equal(b, c):
+        bad.append(("G4 fallback strategy differs from the non-empty component-aware result", dict(where, comp=len(c), bt=len(b))))
+    if runs["comp"]["n_raw"] == 0 and not cmp.equal(b, a):
+        bad.append(("G4 fallback strategy differs from the exhaustive result although the component-aware search found nothing",
+                    dict(where, all=len(a), bt=len(b))))
+    if not cmp.subset(b, a):
+        bad.append(("G4 fallback results are not a subset of the exhaustive results", dict(where, extra=sorted(b - a)[:6])))
+    return bad
+
+
+def cov_judge_case(case, res, cmp):
+    """-> [(what, detail, indices of the calls involved)] — the gates of the property on one case of a cov stream."""
+    bad = []
+    calls = case["calls"]
+    groups = {}
+    for i, (call, r) in enumerate(zip(calls, res["calls"])):
+        groups.setdefault(call["group"], []).append(i)
+    for g, idx in groups.items():
+        ok = [i for i in idx if res["calls"][i]["status"] == "ok"]
+        err = [i for i in idx if res["calls"][i]["status"].startswith("error")]
+        if ok and err:
+            i, j = err[0], ok[0]
+            bad.append(("G1 rule application raises for one writing / form of the inputs and answers for another",
+                        {"group": g, "raises": calls[i]["label"], "error": res["calls"][i]["status"][6:], "message": res["calls"][i].get("error"),
+                         "answers": calls[j]["label"], "options": res["calls"][i].get("kw")}, [j, i]))
+        if len({res["calls"][i]["status"] for i in err}) > 1:
+            bad.append(("G1 rule application raises different exceptions for two writings of the same inputs",
+                        {"group": g, "statuses": sorted({res["calls"][i]["status"] for i in err})}, err[:2]))
+        if not ok:
+            continue
+        r0 = ok[0]
+        for i in ok[1:]:
+            for strat in res["calls"][r0]["runs"]:
+                base, got = res["calls"][r0]["runs"][strat]["results"], res["calls"][i]["runs"][strat]["results"]
+                if not cmp.equal(got, base):
+                    what = ("F1 result set depends on the form in which substrate / template / strategy / options are handed over"
+                            if case["stream"] == "forms" and calls[i]["template"] == calls[r0]["template"] and calls[i]["substrate"] == calls[r0]["substrate"]
+                            else "G1 result set depends on how template / substrate are written")
+                    bad.append((what, {"group": g, "strategy": strat, "reference": calls[r0]["label"], "variant": calls[i]["label"],
+                                       "options": res["calls"][i].get("kw"), "n_reference": len(base), "n_variant": len(got),
+                                       "only_reference": sorted(set(base) - set(got))[:6], "only_variant": sorted(set(got) - set(base))[:6]}, [r0, i]))
+                    break
+        for i in ok:
+            runs, call = res["calls"][i]["runs"], calls[i]
+            where = {"call": call["label"], "options": res["calls"][i].get("kw"), "template": call["template"], "substrate": call["substrate"]}
+            for strat, rr in runs.items():
+                if not rr["reread_equal"]:
+                    bad.append(("G2 repeating the call changes the result set", dict(where, strategy=strat), [i]))
+                if "results_raw" in rr and not cmp.equal(rr["results_raw"], rr["results"]):
+                    bad.append(("G5 symmetry pruning changes the set of distinct reactions",
+                                dict(where, strategy=strat, raw_matches=rr["n_raw"], kept_matches=rr["n_map"], with_pruning=len(rr["results"]),
+                                     every_raw_match=len(rr["results_raw"]), lost=sorted(set(rr["results_raw"]) - set(rr["results"]))[:6],
+                                     gained=sorted(set(rr["results"]) - set(rr["results_raw"]))[:6]), [i]))
+                if "results_spec" in rr and not cmp.equal(rr["results_spec"], rr["results"]):
+                    bad.append(("G5p partial mode: the result set differs from gluing every partial match of the specification (brute force)",
+                                dict(where, strategy=strat, matcher_matches=rr["n_raw"], kept_matches=rr["n_map"], specification_matches=rr["spec"]["n"],
+                                     with_matcher=len(rr["results"]), every_specification_match=len(rr["results_spec"]),
+                                     lost=sorted(set(rr["results_spec"]) - set(rr["results"]))[:6],
+                                     gained=sorted(set(rr["results"]) - set(rr["results_spec"]))[:6]), [i]))
+            thr = (res["calls"][i].get("kw") or {}).get("embed_threshold")
+            if len(runs) == len(C.STRATEGIES) and thr is None:
+                bad += [(w, d, [i]) for w, d in _relations(runs, cmp, where)]
+    return bad
+
+
+def cov_stream(ctx, pool, cases, timeout, tag):
+    """Run the cases of one cov stream, gate them, and (opts) compare the recorded searches with the Lean model."""
+    tasks = [{"key": f"{tag}{i}", "template": c["template"], "core": c["core"], "invert": c["invert"], "mode": c["mode"],
+              "substrate": c["substrate"], "calls": c["calls"], "timeout": timeout} for i, c in enumerate(cases)]
+    results = pool.run(tasks, cov_task)
+    before = len(ctx.violations)
+    reqs, owners = [], []
+    sel = {"node_keys": C.MATCH_NODE_KEYS, "edge_keys": C.MATCH_EDGE_KEYS}
+    for case, res in zip(cases, results):
+        ctx.count(f"{tag}:case_status:" + res["status"])
+        ref = res["calls"][0] if res["calls"] else None
+        if ref is None or ref["status"] != "ok":
+            ctx.count(f"{tag}:cases_skipped(reference call " + (ref["status"].split(":")[0] if ref else "missing") + ")")
+            continue
+        n_all = len(ref["runs"]["all"]["results"])
+        n_raw = ref["runs"]["all"]["n_raw"] or 0
+        ctx.count(f"{tag}:cases")
+        ctx.count(f"{tag}:family:" + case.get("family", "?"))
+        if "/undersized-" in case.get("name", ""):
+            ctx.count(f"{tag}:hosts_with_a_component_count_of_the_substrate_but_too_small_for_a_pattern_component")
+        if "/fragment-left-out" in case.get("name", ""):
+            ctx.count(f"{tag}:substrates_with_one_fragment_left_out")
+        ctx.count(f"{tag}:template:" + ("centre" if case["core"] else "full_its"))
+        ctx.count(f"{tag}:direction:" + ("backward" if case["invert"] else "forward"))
+        ctx.count(f"{tag}:mode:" + case["mode"])
+        ctx.count(f"{tag}:results_all:" + ("0" if n_all == 0 else "1" if n_all == 1 else "2-4" if n_all <= 4 else "5+"))
+        ctx.count(f"{tag}:raw_matches_all:" + ("0" if n_raw == 0 else "1" if n_raw == 1 else "2-9" if n_raw <= 9 else "10+"))
+        for call, r in zip(case["calls"], res["calls"]):
+            st = r["status"].split(":")[0]
+            ctx.count(f"{tag}:call:{call['label'].split('/')[0]}:{st}" + (":" + r["status"][6:] if st == "error" and call.get("expect_error") else ""))
+            if st == "error" and not call.get("expect_error"):
+                ctx.count("impl_exception:" + r["status"][6:])
+            if st != "ok":
+                continue
+            kw = r.get("kw") or {}
+            for strat, rr in r["runs"].items():
+                if "embed_threshold" in kw or "embed_pre_filter" in kw:
+                    n0 = ref["runs"].get(strat, {}).get("n_raw") or 0
+                    ctx.count(f"{tag}:option_effect:" + ("search emptied by the guard" if n0 and not rr["n_raw"] else
+                                                         "search unchanged" if n0 == (rr["n_raw"] or 0) else "search changed otherwise"))
+                if isinstance(rr.get("spec"), dict):
+                    ctx.count(f"{tag}:spec_matches:" + ("0" if not rr["spec"]["n"] else "1-9" if rr["spec"]["n"] <= 9 else "10+"))
+                    ctx.count(f"{tag}:spec_matches_that_leave_out_a_component:" + ("some" if rr["spec"]["n_full"] < rr["spec"]["n"] else "none"))
+                    ctx.count(f"{tag}:matcher_matches_equal_specification:" + ("yes" if rr["spec"]["equal"] else "no (not gated; G5p decides)"))
+                    if rr["n_map"] < (rr["n_raw"] or 0):
+                        ctx.count(f"{tag}:runs_where_pruning_removed_matches")
+                elif rr.get("spec"):
+                    ctx.count(f"{tag}:spec_not_evaluated(too large)")
+                if "raw" in rr:
+                    cfg = {"strategy": strat, "max_results": None, "strict": True, "threshold": kw.get("embed_threshold"),
+                           "pre_filter": bool(kw.get("embed_pre_filter"))}
+                    reqs.append(dict(cmd="c06.search", host=rr["host"], pattern=rr["pattern"], cfgs=[cfg], **sel))
+                    owners.append(("search", case, call, r, strat, rr))
+                    pr = rr.get("prune")
+                    if pr is not None:
+                        reqs.append(dict(cmd="rinv.prune_spec", keep=pr["keep"], group=pr["group"], matches=pr["raw_ordered"], kept=pr["kept_ordered"]))
+                        owners.append(("prune", case, call, r, strat, rr))
+                        for u in pr.get("units", []):
+                            reqs.append(dict(cmd="rinv.prune_spec", keep=pr["keep"], group=pr["group"], matches=pr["raw_ordered"], kept=u["kept_ordered"]))
+                            owners.append(("unit", case, call, r, strat, dict(rr, unit=u)))
+                            reqs.append(dict(cmd="rinv.prune", keep=pr["keep"], group=pr["group"], matches=pr["raw_ordered"], max_group=u["max_group"]))
+                            owners.append(("unit-model", case, call, r, strat, dict(rr, unit=u)))
+        ctx.case(cov_public(case), nontrivial=n_all >= 1,
+                 sample={"stream": tag, "name": case.get("name"), "substrate": case["substrate"], "results_all": n_all, "raw_matches": n_raw,
+                         "calls": len(case["calls"])})
+        cmp = _Cmp()
+        seen = set()
+        for what, detail, idx in cov_judge_case(case, res, cmp):
+            if what in seen:
+                continue
+            seen.add(what)
+            keep = sorted(set([0] + idx))
+            # concrete option values in the replay case
+            cc = [dict(case["calls"][i], kw=res["calls"][i].get("kw") or case["calls"][i].get("kw") or {}) for i in keep]
+            ctx.violation(what, cov_public(case, cc), dict(detail, name=case.get("name"), stream=tag))
+        if cmp.kekule_only:
+            ctx.count("comparisons_equal_only_up_to_kekule_form(not gated)", cmp.kekule_only)
+    gates_failed = {json.dumps(v["case"].get("template")) + json.dumps(v["case"].get("substrate")) for v in ctx.violations[before:]
+                    if isinstance(v["case"], dict)}
+    broken = 0
+    reported = set()   # one report per (case, kind of comparison): the other strategies / option values of the case repeat it
+
+    def first_report(case, kind):
+        key = (id(case), kind)
+        if key in reported:
+            ctx.count(f"{tag}:further_mismatches_of_a_reported_case(not listed)")
+            return False
+        reported.add(key)
+        return True
+
+    for (kind, case, call, r, strat, rr), ans in zip(owners, ctx.lean().ok(reqs, shards=8)):
+        pub = cov_public(case, [dict(case["calls"][0]), dict(call, kw=r.get("kw") or {}, strategy_judged=strat)])
+        where = {"call": call["label"], "options": r.get("kw"), "strategy": strat, "name": case.get("name"), "stream": tag}
+        has_gate = (json.dumps(case["template"]) + json.dumps(case["substrate"])) in gates_failed
+        if kind == "search":
+            ctx.count(f"{tag}:searches_compared_with_model")
+            mod = ans["runs"][0]
+            if mod["prefilter"] and (r.get("kw") or {}).get("embed_pre_filter"):
+                ctx.count(f"{tag}:model_pre_filter_fires")
+            if mod["result"] != rr["raw"]:
+                broken += 1
+                if first_report(case, kind):
+                    ctx.violation("O1 raw match set of the real SynReactor under its options (embed_threshold / embed_pre_filter / defaults) differs "
+                                  "from the Lean model of the search (c06.search: strategy, strict component count, threshold, pre-filter) on the "
+                                  "graphs searched",
+                                  pub, dict(where, impl=len(rr["raw"]), model=len(mod["result"]), hcc=ans["hcc"], pcc=ans["pcc"], total=ans["total"],
+                                            only_impl=[m for m in rr["raw"] if m not in mod["result"]][:3],
+                                            only_model=[m for m in mod["result"] if m not in rr["raw"]][:3]), no_input=not has_gate)
+        elif kind in ("prune", "unit"):
+            ctx.count(f"{tag}:prune_spec_evaluated" + (":direct call with max_group" if kind == "unit" else ""))
+            kept = rr["unit"]["kept_ordered"] if kind == "unit" else rr["prune"]["kept_ordered"]
+            if len(kept) < len(rr["prune"]["raw_ordered"]):
+                ctx.count(f"{tag}:prune_spec_evaluated_where_something_was_pruned" + (":direct call with max_group" if kind == "unit" else ""))
+            if not ans:
+                broken += 1
+                if first_report(case, kind):
+                    ctx.violation("symmetry pruning dropped a match that is not related to any kept match by an automorphism of the rule (PruneSpec "
+                                  "violated)" + (" [SynReactor._prune_by_rule_automorphisms called directly with a small max_group]" if kind == "unit" else ""),
+                                  pub, dict(where, raw=len(rr["prune"]["raw_ordered"]), impl_kept=len(kept), group=len(rr["prune"]["group"]),
+                                            max_group=rr["unit"]["max_group"] if kind == "unit" else 5040))
+        else:
+            ctx.count(f"{tag}:direct_prune_call_equals_model_pruneByAut:" + ("yes" if ans == rr["unit"]["kept_ordered"] else "no (not gated)"))
+            ctx.count(f"{tag}:direct_prune_call:max_group " + ("below" if rr["unit"]["max_group"] < len(rr["prune"]["group"]) else "at") + " the group size")
+    return len(ctx.violations) == before and not broken
+
+
+def cov_streams(ctx, chems, timeout):
+    """forms / opts / partial / wild, after every other stream (their draws change no other stream)."""
+    quick = ctx.quick
+    k = 2
+    t = time.time()
+    stamps = ctx.extra.setdefault("stage_wall_s", {})
+    pool = C.Pool()
+    try:
+        before = len(ctx.violations)
+        wild = wild_cases(ctx, chems, k, 10 if quick else 120)
+        for c in wild:
+            ctx.count("wild:cases:" + c["wild"])
+        run_cases(ctx, pool, wild, timeout, "wild")
+        ctx.obligation("wildcard templates ([*:n] context atoms, hand-written and generated): result sets invariant under template renumbering / "
+                       "substrate rewriting / repetition; comp within all; bt = comp or all; pruning invisible", len(ctx.violations) == before)
+        stamps["wild"] = round(time.time() - t, 1); t = time.time()
+        wchems = [_chem(c["name"], c["template"], c["core"], c["invert"], c["mode"], c["substrate"], "wild") for c in wild] + xh_hand_chems()
+        ok = cov_stream(ctx, pool, forms_cases(ctx, chems + wchems, 24 if quick else 240), timeout, "forms")
+        ctx.obligation("entry points: substrate as SMILES / SynGraph / networkx graph (other node ids, other insertion order), template as ITS graph / "
+                       "renumbered graph / SynRule (both directions) / string, SynReactor(...) / SynReactor.from_smiles, strategy as string / upper case / "
+                       "Strategy member, canonicaliser given, automorphism=True: one result set (F1), also for rewritten inputs; G2-G5 per call", ok)
+        stamps["forms"] = round(time.time() - t, 1); t = time.time()
+        ok = cov_stream(ctx, pool, opts_cases(ctx, chems + wchems, 24 if quick else 240, 8 if quick else 80), timeout, "opts")
+        ctx.obligation("options embed_threshold / embed_pre_filter (and hosts too small for a pattern component): recorded searches == Lean model "
+                       "c06.search under the same configuration; kept matches (also of direct _prune_by_rule_automorphisms calls with max_group "
+                       "below / at the group size) satisfy PruneSpec; result sets invariant under rewriting for every option; pruning invisible", ok)
+        stamps["opts"] = round(time.time() - t, 1); t = time.time()
+        ok = cov_stream(ctx, pool, partial_cases(ctx, chems + wchems, 16 if quick else 160), timeout, "partial")
+        ctx.obligation("partial=True (PartialMatcher; substrates lacking a component of the pattern): result sets invariant under rewriting, "
+                       "strategy relations, pruning invisible, == gluing every match of the brute-force specification (G5p)", ok)
+        stamps["partial"] = round(time.time() - t, 1)
+        _shutdown(pool)
+    finally:
+        pool.close()
+
+
+
 def replay(ctx, case):
     c = case.get("case", case)
     if c.get("stream") == "history":
@@ -1772,6 +2615,14 @@ def replay(ctx, case):
             run_histories(ctx, fpool, [history_from_case(c)], 120.0, "replay", shrink=0)
         finally:
             fpool.close()
+        return
+    if c.get("stream") in ("forms", "opts", "partial"):
+        pool = C.Pool(2)
+        try:
+            c.setdefault("name", "replay")
+            cov_stream(ctx, pool, [c], 120.0, c["stream"])
+        finally:
+            pool.close()
         return
     if c.get("stream") == "graph":
         pool = C.Pool(2)
